@@ -1,5 +1,120 @@
 /- Helper lemmas for C17. -/
 import DhtVerif.Model.Security
 namespace Dht
+namespace C17
 
+/-! ### Byte facts -/
+
+theorem u8_merge_hi (c b : UInt8) : ((c &&& 0xf8) ||| (b &&& 7)) &&& 0xf8 = c &&& 0xf8 := by
+  apply UInt8.eq_of_toBitVec_eq
+  simp only [UInt8.toBitVec_and, UInt8.toBitVec_or]
+  ext i hi
+  simp only [BitVec.getElem_and, BitVec.getElem_or]
+  have : i = 0 ∨ i = 1 ∨ i = 2 ∨ i = 3 ∨ i = 4 ∨ i = 5 ∨ i = 6 ∨ i = 7 := by omega
+  rcases this with h | h | h | h | h | h | h | h <;> subst h <;> simp <;> rfl
+
+theorem u8_merge_lo (c b : UInt8) : ((c &&& 0xf8) ||| (b &&& 7)) &&& 7 = b &&& 7 := by
+  apply UInt8.eq_of_toBitVec_eq
+  simp only [UInt8.toBitVec_and, UInt8.toBitVec_or]
+  ext i hi
+  simp only [BitVec.getElem_and, BitVec.getElem_or]
+  have : i = 0 ∨ i = 1 ∨ i = 2 ∨ i = 3 ∨ i = 4 ∨ i = 5 ∨ i = 6 ∨ i = 7 := by omega
+  rcases this with h | h | h | h | h | h | h | h <;> subst h <;> simp <;> rfl
+
+theorem u8_and7_and7 (r : UInt8) : r &&& 7 &&& 7 = r &&& 7 := by
+  rw [UInt8.and_assoc, UInt8.and_self]
+
+theorem u8_and_255 (x : UInt8) : x &&& 255 = x := by
+  apply UInt8.eq_of_toBitVec_eq
+  simp only [UInt8.toBitVec_and]
+  ext i hi
+  simp only [BitVec.getElem_and]
+  have : i = 0 ∨ i = 1 ∨ i = 2 ∨ i = 3 ∨ i = 4 ∨ i = 5 ∨ i = 6 ∨ i = 7 := by omega
+  rcases this with h | h | h | h | h | h | h | h <;> subst h <;> simp <;> rfl
+
+/-! ### List shape -/
+
+theorem list20_shape (id : List UInt8) (hid : id.length = 20) :
+    ∃ a0 a1 a2 rest, id = a0 :: a1 :: a2 :: rest ∧ rest.length = 17 := by
+  match id, hid with
+  | a0 :: a1 :: a2 :: rest, h => exact ⟨a0, a1, a2, rest, rfl, by simpa using h⟩
+
+/-! ### `crcIP` -/
+
+theorem maskV4 : Gen.v4Mask.map Nat.toUInt8 = [3, 15, 63, 255] := by decide
+theorem maskV6 : Gen.v6Mask.map Nat.toUInt8 = [1, 3, 7, 15, 31, 63, 127, 255] := by decide
+
+theorem to4_length (ip v4 : List UInt8) (h : to4 ip = some v4) : v4.length = 4 := by
+  unfold to4 at h
+  split at h
+  · simp_all
+  · split at h
+    · rename_i h2
+      simp at h h2
+      subst h
+      simp [h2.1]
+    · simp at h
+
+theorem to4_of_len4 (ip : List UInt8) (h : ip.length = 4) : to4 ip = some ip := by
+  simp [to4, h]
+
+/-- `crcIP` on a 4-byte (already `to4`-normalised) address. -/
+def crc4 (v4 : List UInt8) (r : UInt8) : Option UInt32 :=
+  match v4 with
+  | [a, b, c, d] => some (crc32c [(a &&& (3 : UInt8)) ||| ((r &&& (7 : UInt8)) <<< (5 : UInt8)), b &&& (15 : UInt8), c &&& (63 : UInt8), d &&& (255 : UInt8)])
+  | _ => none
+
+theorem crcIP_of_to4_some (ip v4 : List UInt8) (r : UInt8) (h : to4 ip = some v4) :
+    crcIP ip r = crc4 v4 r := by
+  have hl := to4_length ip v4 h
+  match v4, hl with
+  | [a, b, c, d], _ =>
+    simp [crcIP, h, to4_of_len4, maskForIP, maskV4, crc4]
+
+theorem crcIP_total (ip : List UInt8) (r : UInt8) (h : validIp ip = true) : ∃ c, crcIP ip r = some c := by
+  cases h4 : to4 ip with
+  | some v4 =>
+    have hl := to4_length ip v4 h4
+    rw [crcIP_of_to4_some ip v4 r h4]
+    match v4, hl with
+    | [a, b, c, d], _ => exact ⟨_, rfl⟩
+  | none =>
+    have h16 : ip.length = 16 := by
+      simp [validIp] at h
+      rcases h with h | h
+      · rw [to4_of_len4 ip h] at h4; cases h4
+      · exact h
+    match ip, h16 with
+    | a0 :: a1 :: a2 :: a3 :: a4 :: a5 :: a6 :: a7 :: rest, hr =>
+      simp at hr
+      simp [crcIP, h4, maskForIP, maskV6, hr]
+
+/-! ### `secureNodeId` on a destructured ID -/
+
+theorem getD19_shape (a0 a1 a2 : UInt8) (rest : List UInt8) :
+    (a0 :: a1 :: a2 :: rest).getD 19 0 = rest.getD 16 0 := rfl
+
+theorem secure_shape (a0 a1 a2 : UInt8) (rest : List UInt8) (ip : List UInt8) :
+    secureNodeId (a0 :: a1 :: a2 :: rest) ip =
+      (crcIP ip (rest.getD 16 0)).map (fun crc =>
+        byte crc 24 :: byte crc 16 :: ((byte crc 8 &&& 0xf8) ||| (a2 &&& 7)) :: rest) := by
+  unfold secureNodeId
+  rw [getD19_shape]
+  cases crcIP ip (rest.getD 16 0) <;> rfl
+
+/-- Inversion of a successful `secureNodeId` on a 20-byte ID. -/
+theorem secure_inv (id ip id' : List UInt8) (hid : id.length = 20)
+    (h : secureNodeId id ip = some id') :
+    ∃ a0 a1 a2 rest c, id = a0 :: a1 :: a2 :: rest ∧ rest.length = 17 ∧
+      crcIP ip (rest.getD 16 0) = some c ∧
+      id' = byte c 24 :: byte c 16 :: ((byte c 8 &&& 0xf8) ||| (a2 &&& 7)) :: rest := by
+  obtain ⟨a0, a1, a2, rest, rfl, hr⟩ := list20_shape id hid
+  rw [secure_shape] at h
+  cases hc : crcIP ip (rest.getD 16 0) with
+  | none => rw [hc] at h; cases h
+  | some c =>
+    rw [hc] at h
+    exact ⟨a0, a1, a2, rest, c, rfl, hr, hc, (Option.some.inj h).symm⟩
+
+end C17
 end Dht
